@@ -12,6 +12,7 @@ EXPLANATION = ("C13: the device forwards messages untouched (no message mutator 
                "routing word after the length test."
                " Also: device_cb frees the path message only under its state test; a reflector device runs one forwarder (R6); the hop limit is the socket's current value.")
 EXPLANATION += " Round 3: the raw sockets' pumps a device forwards through survive a dropped message (R7 = C11.R9); the hop loop's panicking append on wire data is reported."
+EXPLANATION += ' Round 6: the hop limit is applied to requests, never to replies on their way back (R8).'
 
 
 def on_cycle(fn, pos):
